@@ -39,7 +39,7 @@ pub fn cases(thorough: bool) -> Vec<Case> {
     } else {
         vec!["default", "tinywin", "sendwin2000", "gso1", "ackfreq", "mtu1452", "lat0"]
     };
-    let wls = [Wl::W1, Wl::W2, Wl::W4, Wl::W8, Wl::W9];
+    let wls = [Wl::W1, Wl::W2, Wl::W4, Wl::W8, Wl::W9, Wl::W11];
     let windows: [(&str, (u64, u64)); 2] = [("start", (0, 26)), ("mid", (14, 40))];
     let rms = read_modes();
     let mut i = 0usize;
